@@ -57,6 +57,14 @@ ASSUMPTIONS = [
     '(max(|d demand/d multiplier| * tolerance_dual, tolerance_budget)) when that is looser; the count of forecasts '
     'judged at 1e-6 is reported',
     'error draws are handed over in the column order the model publishes as index_to_key',
+    'forecasts are requested half with the library defaults (forecast: 1e-10/1e-10, forecast_bisection_one_draw: '
+    '1e-13/1e-13) and half with tolerance_dual=1e-15, tolerance_budget=1e-9*budget; four directed cases use 1e-7*budget',
+    'Mdcev.validation hard-codes the multiplier 10 and the draw 0.01: its verdict is taken only where 10 is attainable '
+    'and the remaining fraction 1 + x/(price*gamma) at the implied consumption is >= 1e-7 (otherwise float64 '
+    'cancellation, not the code, decides; counted as validation_skipped_multiplier_10_ill_conditioned); the harness\'s '
+    'own inverse test above the marginal utility at zero uses remaining fractions in [1e-3, 0.9]',
+    'finite differences of the library utility use a step of 1e-4 of the curvature scale (x + price*gamma, x for the '
+    'outside good) and are not taken for an outside-good consumption below the library\'s SMALLEST_NON_ZERO_NUMBER (1e-6)',
 ]
 MIN_DISTINCT = {'quick': 500, 'thorough': 3000}
 CASE_TIMEOUT = 600
